@@ -58,7 +58,15 @@ func better(f, old *found) bool {
 	if old == nil || f.Length != old.Length {
 		return old == nil || f.Length < old.Length
 	}
-	return f.Hist < old.Hist
+	// same length: enumeration order (not string order)
+	a, _ := parseHist(f.Hist)
+	b, _ := parseHist(old.Hist)
+	for i := range a {
+		if i < len(b) && a[i] != b[i] {
+			return a[i] < b[i]
+		}
+	}
+	return f.Variant < old.Variant
 }
 
 // childResult is what one worker process reports to the coordinator.
@@ -138,7 +146,7 @@ func runUnits(t *testing.T, d int, units []unit, idx, stride int, deadline time.
 			}
 			first = false
 			prev = append(prev[:0], h...)
-			viol, infra, _, st := runHistory(t, h, checkFrom, vars, false, func(m *model) {
+			viols, infra, _, st := runHistory(t, h, checkFrom, vars, false, func(m *model) {
 				states[m.hash()] = struct{}{}
 				res.Nodes++
 			})
@@ -148,20 +156,18 @@ func runUnits(t *testing.T, d int, units []unit, idx, stride int, deadline time.
 				res.Infra = fmt.Sprintf("history %q: %v", histString(h), infra)
 				return
 			}
-			if viol != nil && checkFrom > 0 {
-				// Unobserved earlier steps may already have been wrong: re-run
-				// observing every step so that the key names the first failing step.
-				if v2, _, _, _ := runHistory(t, h, 0, vars, false, nil); v2 != nil {
-					viol = v2
-				}
-			}
-			if viol != nil {
+			// Every prefix is observed by exactly one execution, so each
+			// violation belongs to one (prefix, consumer variant) pair.
+			if len(viols) > 0 {
 				res.ViolHist++
+			}
+			for i := range viols {
+				viol := &viols[i]
 				trunc := h[:viol.Step+1]
 				f := &found{Hist: histString(trunc), Variant: viol.Variant, Viol: *viol, Length: len(trunc)}
-				res.CountKey[viol.Class]++
-				if better(f, res.ByKey[viol.Class]) {
-					res.ByKey[viol.Class] = f
+				res.CountKey[viol.Key]++
+				if better(f, res.ByKey[viol.Key]) {
+					res.ByKey[viol.Key] = f
 				}
 			}
 		})
@@ -216,7 +222,8 @@ func TestVerifC05(t *testing.T) {
 		"{A+ A.append, Ac A.commit, Ax A.abort, At A.timeout (virtual clock past A's 60s transaction timeout: the broker aborts), B+ B.append, Bc B.commit, Bx B.abort, N+ non-transactional append} "+
 		"on one partition of a fresh 1-broker kfake cluster in its own synctest bubble; commit/abort/timeout are enabled only with an open transaction, an append opens one if none; "+
 		"A and B are kgo transactional clients (BeginTransaction/ProduceSync/EndTransaction), N a plain idempotent kgo client, driven sequentially; appends alternate between batches of one and two records. "+
-		"After every step one fresh ReadCommitted kgo consumer per variant (FetchMaxBytes=FetchMaxPartitionBytes in {1 MiB, 170 = two batches per response, 1 = one batch per response} x {default, KeepControlRecords}) "+
+		"After every step one fresh ReadCommitted kgo consumer per variant ({large: FetchMaxBytes=FetchMaxPartitionBytes=1 MiB; part1: FetchMaxPartitionBytes=1 = one batch per response; part170: FetchMaxPartitionBytes=170 = two batches per response; "+
+		"req1: FetchMaxBytes=1 = one batch per response cut by the request-level limit} x {default, KeepControlRecords}) "+
 		"reads from offset 0 until a poll stays empty for 1s of virtual time, and its output is compared with the reference visibility model. "+
 		"distinct_nontrivial = distinct reference-model states observed", d))
 	r.Assume("executions are deterministic for a given history (each history prefix is observed in one execution only)",
@@ -310,7 +317,7 @@ func TestVerifC05(t *testing.T) {
 	r.Set("observed_states_without_open_transaction", st.FinalQuiescent)
 	names := make([]string, len(vars))
 	for i, v := range vars {
-		names[i] = fmt.Sprintf("%s(max_bytes=%d,keep_control=%v)", v.Name, v.MaxBytes, v.Keep)
+		names[i] = fmt.Sprintf("%s(max_bytes=%d,max_partition_bytes=%d,keep_control=%v)", v.Name, v.MaxBytes, v.PartBytes, v.Keep)
 	}
 	r.Set("consumer_variants", names)
 	r.Set("consumer_reads", st.Reads)
@@ -390,16 +397,18 @@ func replay(t *testing.T, path string) int {
 		vars = []variant{*v}
 	}
 	fmt.Printf("replaying %q with consumer variant(s) %v\n", f.Hist, vars)
-	viol, infra, m, _ := runHistory(t, h, 0, vars, true, nil)
+	viols, infra, m, _ := runHistory(t, h, 0, vars, true, nil)
 	if infra != nil {
 		fmt.Println("INFRA-ERROR:", infra)
 		return 2
 	}
 	if m != nil {
-		fmt.Print(m.dump())
+		fmt.Print("final ", m.dump())
 	}
-	if viol != nil {
-		fmt.Printf("VIOLATION key=%s variant=%s after step %d (%s): %s\n", viol.Class, viol.Variant, viol.Step, viol.Sym, viol.Detail)
+	for _, viol := range viols {
+		fmt.Printf("VIOLATION key=%s variant=%s after step %d (%s)\n", viol.Key, viol.Variant, viol.Step, viol.Sym)
+	}
+	if len(viols) > 0 {
 		return 1
 	}
 	fmt.Println("held")
